@@ -18,6 +18,8 @@ MANIFEST = dict(
 MODULE = "IwModel.Props.C12"
 THEOREMS = [
     "IwModel.C12.segments_partition", "IwModel.C12.shared_refines_flat", "IwModel.C12.size_inv",
+    "IwModel.C12.read_after_write", "IwModel.C12.read_unaffected_by_write", "IwModel.C12.read_fresh_is_zero",
+    "IwModel.C12.ensure_follows_policy", "IwModel.C12.reopen_size_partial",
 ]
 
 PS = 4096
